@@ -204,7 +204,7 @@ def main(ck):
       pairs.append((s, sp, t.decl('vf_x'), t))
     nt = arrays > 0 or depth >= 2
     ck.case(nontrivial=nt, key=s, labels=['type:arrays=%d' % min(arrays, 2), 'type:ptr=%d' % min(depth, 3)],
-            sample=dict(type=s, respaced=sp) if nt else None)
+            sample=dict(type=s, respaced=sp) if (nt and len(ck.samples) < 2) else None)
 
   ck.run_hypothesis(roundtrip, st.tuples(type_strategy(an), st.integers(0, 10 ** 6)), ck.budget(3000, 40000), name='type-roundtrip')
 
